@@ -33,6 +33,7 @@ type CInfo struct {
 	RelayMode   int // 0 prompt, 1 batchy, 2 laggy
 	Hostile     bool
 	StarveAt    int // step from which the relayer delivers nothing to this consumer (0: never)
+	RemoveAt    int // step at which the owner removes this consumer (0: not scheduled)
 }
 
 // Prop is a governance proposal in flight.
@@ -81,6 +82,12 @@ func (w *World) trackTxOutcomes(outs []TxOutcome) {
 					ci.RelayMode = w.Rnd.Intn(3)
 					if w.Cfg.StarveSome && len(w.Shadow.Consumers) == 0 {
 						ci.StarveAt = 25 + w.Rnd.Intn(30)
+					}
+					if w.Cfg.LateHandshakeStop && len(w.Shadow.Consumers) == 2 {
+						// stopped while packets for it are queued and no channel exists yet; the handshake completes afterwards
+						ci.HandshakeAt = 22 + w.Rnd.Intn(8)
+						ci.RemoveAt = ci.HandshakeAt - 4
+						ci.RelayMode = 0
 					}
 				}
 				w.Shadow.Consumers = append(w.Shadow.Consumers, ci)
